@@ -468,6 +468,10 @@ def outcome_vals(kind, prev, nE):
         v = [p + 0.125 if np.isfinite(p) else 1.0 for p in prev]
         v[-1] = (prev[-1] if np.isfinite(prev[-1]) else 0.0) - 2.0
         return v
+    if kind == 'allinf':   # every check value +inf at once (then e.g. 'zero': the replaced values are exactly 0.0)
+        return [float('inf') for p in prev]
+    if kind == 'allninf':
+        return [float('-inf') for p in prev]
     if kind == 'tiny':   # a move far below float32's machine epsilon relative to 1, yet above a tolerance of 1e-10
         return [p + 2.0 ** -26 if np.isfinite(p) else 2.0 ** -7 for p in prev]
     if kind == 'zero':   # every value exactly 0.0 (what 'replace' turns a non-finite previous value into)
